@@ -75,6 +75,7 @@ package pclog
 //@   ensures dropped: abool(l.isClosed) ==> sends() == old(sends())
 //@   assigns sends()
 //@ func (l *PCLog) Close$1
+//@   after close assert marked-before-queue-closed: abool(l.isClosed)
 //@   ensures marked: abool(l.isClosed)
 //@   ensures queue-closed: closed(l.logEventChan)
 //@   ensures drained-then-flushed: joins() == old(joins()) + 1 && flushes() == old(flushes()) + 1 && flushAtJoins() == joins()
